@@ -128,8 +128,10 @@ def gen_case(rnd, tier, index):
         knobs.update(boost=0.15, p_cse=0.3, cse=True, ranges=True, iferr=True, gadget=0.6)
     spec = wbgen.generate(wrnd, knobs)
     edge = falsy_edge(wrnd, spec) if wrnd.random() < 0.35 else []
-    dag = wbgen.Dag(spec)
     origin = wrnd.choice(('nodata', 'nodata', 'xlsx', 'xlsx', 'yml', 'json', 'pkl'))
+    if origin != 'xlsx' and wrnd.random() < 0.3:
+        wbgen.add_table_gadget(wrnd, spec)
+    dag = wbgen.Dag(spec)
     cfg = {'origin': origin, 'group': group, 'perm': list(perm)}
     st0 = history.Static({'spec': spec, 'cfg': cfg})
     allowed_unbounded = []
